@@ -95,7 +95,7 @@ class ParseNP(NPProxy):
             while len(cells) > 1 and cells[0] == "0":
                 cells.pop(0)
             if len(cells) == 1 and isinstance(cells[0], tuple) and cells[0][0] == "I":
-                return SInt(cells[0][1])
+                return SInt(sstr._cell_term(cells[0]))
             v = sstr.value_of_cells(cells)
             if v is None or v["dot"]:
                 raise ValueError(f"invalid literal for int() with base 10: {x!r}")
